@@ -125,8 +125,8 @@ EXTRA["C04"].append("Known finding F14: a panicking user destructor during a col
 EXTRA["C15"].append("Known finding F14: a panicking user destructor during a collection (no unwind guard in unpin / Bag::drop).")
 EXTRA["C16"] = ["unpin writes back a guard count read after the collection (F11, fixed)."]
 NOTE = ("trusted base: rustc nightly MIR/const-eval/callee resolution, the mirfacts exporter, the circlint path reader and "
-        "higher-order models (Result::map, array::from_fn, LocalKey::with, scopeguard); only the live cfg! arm (x86-64) and "
-        "non-unwinding paths are judged; user pop_edges/Drop assumed to honour RcObject's contract")
+        "higher-order models (Result::map, array::from_fn, LocalKey::with, scopeguard); pin's publication is judged in both arms of its cfg!(x86) test, other rules in the "
+        "live arm; only non-unwinding paths are judged; user pop_edges/Drop assumed to honour RcObject's contract")
 TECH = {
  "C11": "abstract interpretation (bit-provenance domain) of MIR over an exhaustive partition of alignments",
  "C12": "abstract interpretation (bit provenance, linear forms, K-affine forms) of MIR + evaluated constants",
